@@ -5,6 +5,7 @@ package meta
 
 import (
 	"math"
+	"slices"
 
 	"github.com/apmckinlay/gsuneido/db19/index"
 	"github.com/apmckinlay/gsuneido/db19/index/btree"
@@ -200,7 +201,9 @@ type PersistUpdate struct {
 // WARNING: must not modify meta.
 func (m *Meta) Persist(exec func(func() PersistUpdate)) {
 	for ti := range m.info.All() {
-		if len(ti.Indexes) >= 1 && ti.Indexes[0].Modified() {
+		// check all the indexes because a newly built index has the existing
+		// rows in its btree, so its changes may differ from the other indexes
+		if slices.ContainsFunc(ti.Indexes, (*index.Overlay).Modified) {
 			exec(func() PersistUpdate {
 				results := make([]*btree.T, len(ti.Indexes))
 				for i, ov := range ti.Indexes {
